@@ -202,8 +202,8 @@ Definition zops : numops Z :=
     (fun c _ => zrnd c 0)
     (fun c z => zrnd c z)
     (fun z => z)
-    (fun c o a => zrnd c (match o with UNeg => - a | UAbs => Z.abs a | USqrt => Z.sqrt a end))
-    (fun c o a b => zrnd c (match o with BAdd => a + b | BSub => a - b | BMul => a * b | BDiv => a / b end))
+    (fun c o a => zrnd c (match o with UNeg => - a | UAbs => Z.abs a | USqrt => Z.sqrt a | _ => a end))
+    (fun c o a b => zrnd c (match o with BAdd => a + b | BSub => a - b | BMul => a * b | BDiv => a / b | _ => a end))
     (fun o a b => match o with CLt => a <? b | CLe => a <=? b | CGt => a >? b | CGe => a >=? b
                             | CEq => a =? b | CNe => negb (a =? b) end)
     (fun v => if v <? 0 then None else Some (Z.to_nat v)).
